@@ -177,6 +177,10 @@ def _draw_model(source):
         k = L.simplify_native(args[0] if args else kw.get("k"))
         if is_sym(k):
             raise Undecided("getrandbits with a symbolic width")
+        if isinstance(k, bool) or not isinstance(k, int) or len(args) + len(kw) != 1:
+            raise Undecided("getrandbits call shape")
+        if k < 0:
+            raise PyRaise(ValueError, "number of bits must be non-negative")
         n = len([e for e in ctx.effects if e[0] == "draw"])
         r = z3.Int(f"drawn!{n}")
         ctx.assume(z3.And(r >= 0, r < 2 ** k))
@@ -190,8 +194,12 @@ def _randrange_model(source):
     def m(ctx, selfv, args, kw):
         a = [L.simplify_native(x) for x in args]
         lo, hi = (0, a[0]) if len(a) == 1 else (a[0], a[1])
-        if is_sym(lo) or is_sym(hi) or len(a) > 2:
+        if is_sym(lo) or is_sym(hi) or len(a) > 2 or kw or not a:
             raise Undecided("randrange with symbolic bounds / step")
+        if any(isinstance(x, bool) or not isinstance(x, int) for x in (lo, hi)):
+            raise Undecided("randrange with non-integer bounds")
+        if hi <= lo:
+            raise PyRaise(ValueError, "empty range for randrange()")
         n = len([e for e in ctx.effects if e[0] == "draw"])
         r = z3.Int(f"drawn!{n}")
         ctx.assume(z3.And(r >= lo, r < hi))
